@@ -36,6 +36,9 @@ func (o Op) String() string {
 	if o.Kind == "setindex" {
 		return fmt.Sprintf("SetIndex(%d)", o.J)
 	}
+	if o.Kind == "signE" {
+		return "Sign(empty message)"
+	}
 	return "Sign(m" + o.Kind[4:] + ")"
 }
 
@@ -120,6 +123,8 @@ type explorer struct {
 	ident  string
 	curOps func() []Op
 	numEl  uint64
+	// set by step: the last refused operation nevertheless changed the object (the changed object is then explored too)
+	refusalChangedState bool
 }
 
 func (e *explorer) fail(prop, key string, ops []Op, d map[string]any) {
@@ -159,6 +164,8 @@ func goTest(c Cfg, ops []Op) string {
 			fmt.Fprintf(&b, "\tsig, _ := k.Sign([]byte(%q)); if !xmss.Verify([]byte(%q), sig, k.GetPK()) { t.Fatal(\"does not verify\") }\n", M0, M0)
 		case "sign1":
 			fmt.Fprintf(&b, "\tsig, _ := k.Sign([]byte(%q)); if !xmss.Verify([]byte(%q), sig, k.GetPK()) { t.Fatal(\"does not verify\") }\n", M1, M1)
+		case "signE":
+			fmt.Fprintf(&b, "\tsig, _ := k.Sign([]byte{}); if !xmss.Verify([]byte{}, sig, k.GetPK()) { t.Fatal(\"does not verify\") }\n")
 		}
 	}
 	b.WriteString("}\n")
@@ -236,6 +243,8 @@ func apply(k *xmss.XMSS, op Op) (o outcome) {
 		o.sig, o.err = k.Sign(M0)
 	case "sign1":
 		o.sig, o.err = k.Sign(M1)
+	case "signE":
+		o.sig, o.err = k.Sign([]byte{})
 	}
 	o.kind = "ok"
 	return
@@ -270,7 +279,9 @@ func (e *explorer) step(k *xmss.XMSS, op Op, ops []Op) (accepted bool) {
 		if expectOK {
 			e.fail("C02", "legal-operation-refused", ops, map[string]any{"index_before": idx, "observed": o.kind, "expected": "accepted (counter automaton)"})
 		}
+		e.refusalChangedState = false
 		if !bytes.Equal(before, k.VerifSnapshot()) {
+			e.refusalChangedState = true
 			e.fail("C02", "refused-operation-changed-state", ops, map[string]any{"index_before": idx, "index_after": after, "observed": o.kind})
 		}
 		return false
@@ -296,6 +307,9 @@ func (e *explorer) step(k *xmss.XMSS, op Op, ops []Op) (accepted bool) {
 		msg, other := M0, M1
 		if op.Kind == "sign1" {
 			msg, other = M1, M0
+		}
+		if op.Kind == "signE" {
+			msg = []byte{}
 		}
 		authOff := len(o.sig) - 32*e.cfg.H
 		if e.cfg.Symbolic || e.ref != nil {
@@ -476,7 +490,7 @@ func Closure(c Cfg, keepTrace bool) *Res {
 			fmt.Fprintf(os.Stderr, "bfs: idx=%d seen=%d queue=%d fails=%d trans=%d\n", s.idx, len(seen), len(queue), len(res.Fails), res.Transitions)
 		}
 		var opsList []Op
-		opsList = append(opsList, Op{Kind: "sign0"}, Op{Kind: "sign1"})
+		opsList = append(opsList, Op{Kind: "sign0"}, Op{Kind: "sign1"}, Op{Kind: "signE"})
 		for _, j := range targets(s.idx) {
 			opsList = append(opsList, Op{Kind: "setindex", J: j})
 		}
@@ -484,9 +498,10 @@ func Closure(c Cfg, keepTrace bool) *Res {
 			k2 := s.k.VerifClone()
 			ops := append(append([]Op(nil), s.ops...), op)
 			acc := e.step(k2, op, ops)
-			if !acc {
+			if !acc && !e.refusalChangedState {
 				continue // refusal: self-loop (state equality already checked)
 			}
+			e.refusalChangedState = false
 			e.checkState(k2, ops, true)
 			key := sha256.Sum256(k2.VerifSnapshot())
 			idx2 := k2.GetIndex()
@@ -665,6 +680,9 @@ func Chain(c Cfg, maxDist uint64, everyStateCheap bool, keepTrace bool, capIdx u
 		opA := Op{Kind: "sign0"}
 		if i&1 == 1 {
 			opA = Op{Kind: "sign1"}
+		}
+		if i%7 == 3 {
+			opA = Op{Kind: "signE"}
 		}
 		e.step(a, opA, append(opsA(i), opA))
 		if i+1 < n {
